@@ -343,6 +343,12 @@ def wrapper_task(op, prop, tv_n=40):
         # translation validation of this op's encoding against the real code (sampling: validates the encoder only)
         tv = tv_wrapper(R, tv_n, int(os.environ.get('VERIF_SEED', '0') or 0))
         first = next(iter(obs.values()))
+        if tv['n_disagree']:
+            # an encoder defect is deterministic; a disagreement that does not survive a fresh exploration + fresh native run was an artefact of the run
+            # (observed once on a heavily loaded machine) and must not turn a clean tree into exit 2
+            tv2 = tv_wrapper(OpRun(world, op), tv_n, int(os.environ.get('VERIF_SEED', '0') or 0))
+            first.notes.append(f"translation validation {op}: first attempt had {tv['n_disagree']} disagreements, repeated on a fresh exploration: {tv2['n_disagree']} disagreements")
+            tv = tv2
         first.notes.append(f"translation validation {op}: {tv['agree']}/{tv['inputs']} inputs agree with the native function ({tv['native_ok']} native Ok)")
         if tv['n_disagree']:
             json.dump(tv['disagreements'], open(f'/verif/.cache/tv_disagreement_{op}.json', 'w'), default=str)
